@@ -50,6 +50,11 @@ def dtlz(args):
     from artap.individual import Individual
     cls = {1: BP.DTLZI, 2: BP.DTLZII, 3: BP.DTLZIII, 4: BP.DTLZIV}[fam]
     n = m + k - 1
+    try:        # another object of the same family with one more objective was used earlier in the same process
+        other = cls(**{'dimension': n + 1, 'm': m + 1})
+        other.evaluate(Individual([0.25] * (n + 1)))
+    except Exception:
+        pass
     prob = cls(**{'dimension': n, 'm': m})
 
     def body(ctx):
